@@ -59,7 +59,12 @@ func runDownload(c Case16, cc *conc16, sb *sandbox, r *rand.Rand, o *Obs16) {
 	if len(o.Msg) > 120 {
 		o.Msg = o.Msg[:120]
 	}
-	o.Changes = Diff(before, Snap(sb.root))
+	after := Snap(sb.root)
+	o.Leaks = Leaks(sb.root, "dest", before, after)
+	for i := range o.Leaks {
+		o.Leaks[i].Path = Abstract(o.Leaks[i].Raw, cc.back, sb.sbComps)
+	}
+	o.Changes = Diff(before, after)
 	for i := range o.Changes {
 		p := Abstract(o.Changes[i].Raw, cc.back, sb.sbComps)
 		// a file directly in dest under any other name than n1's is the model's "dlname"
